@@ -32,6 +32,25 @@
 (*   DoUpdStr  the string form: str_to_dict creates NEW dictionaries       *)
 (*   DoNested  update_nested(key, d, other)                                *)
 (*   DoTouch   the caller changes every dictionary of a result it received *)
+(*   DoDiffR   r = difference(copy of x, copy of y): the RESULT becomes an  *)
+(*             object of the caller (round 8).  The arguments are private  *)
+(*             copies, so that what the documentation leaves open ("d1 or  *)
+(*             some of its subdictionaries may be returned directly")      *)
+(*             cannot be observed; the result is built as the              *)
+(*             implementation builds it (a new dictionary, the empty one   *)
+(*             for equal arguments, d1 itself at level 0)                  *)
+(*   DoStrD    r = str_to_dict(string[, value]) kept by the caller         *)
+(*                                                                         *)
+(* Results are the caller's objects (round 8): between calls the caller    *)
+(* writes into a result at every depth (DoTouch) or updates it             *)
+(* (update_recursively(result, ...)), and every later call must still be   *)
+(* the function of the VALUES of its own arguments - the library keeps no  *)
+(* reference to an object it handed out (or hands out no object it keeps:  *)
+(* a module-level empty dictionary, a default argument, a cache) through   *)
+(* which a later result could change.  Variants "diffempty", "interempty"  *)
+(* and "strdempty" hand out ONE kept empty dictionary (for equal           *)
+(* arguments of difference / for an empty intersection without arguments   *)
+(* or at level 0 / for str_to_dict("")) and must be refuted.               *)
 (*                                                                         *)
 (* StepOK (checked for every step): the values seen by the caller change   *)
 (* exactly as the value-level reference of CtxValue.tla says - the result  *)
@@ -53,9 +72,17 @@ EXTENDS CtxValue, TLC, Json
 
 CONSTANTS K,            \* key alphabet
           NC,           \* number of leaf equality classes
-          Variant,      \* "lena" (as the implementation is), "inplace", "strcache" (must be refuted)
+          Variant,      \* "lena" (as the implementation is); "inplace", "strcache", "diffempty",
+                        \* "interempty", "strdempty" (must be refuted)
           Kinds         \* the universes explored: BehsOf(kind) is a set of
                         \* [env |-> [sv, roots], prog |-> sequence of calls]
+
+VARIABLES beh,          \* the behaviour chosen: environment description and program
+          heap, env,
+          pcn,          \* number of the next call
+          obs,          \* what the caller sees after every call: values of all variables, returned value
+          cache         \* objects the LIBRARY keeps between calls, as <<path, object>> (none in Variant "lena";
+                        \* "strcache": dictionaries kept by str_to_dict; the *empty variants: one empty dictionary)
 
 Ref(o) == [k |-> "R", o |-> o]
 Sh(i) == [k |-> "S", i |-> i]             \* in an environment description: THE i-th shared object
@@ -126,20 +153,26 @@ CopyKeys(h, memo, src, dst, ks) ==
        IN CopyKeys([r.h EXCEPT ![dst] = With(@, k, r.c)], r.memo, src, dst, ks \ {k})
 DeepCopy(h, c) == Copy(h, {}, c)
 NewEmpty(h) == [h |-> Append(h, Empty), c |-> Ref(Len(h) + 1)]
+\* (round 8) the wrong variants that hand out one module-level empty dictionary: it is the object allocated
+\* after the environment by Init (KeptObj), handed out by the function `who` instead of a new dictionary
+KeptVariants == {"diffempty", "interempty", "strdempty"}
+KeptPath == <<"$kept-empty">>
+KeptObj == (CHOOSE e \in cache : e[1] = KeptPath)[2]
+EmptyFor(h, who) == IF Variant = who THEN [h |-> h, c |-> Ref(KeptObj)] ELSE NewEmpty(h)
 
 (***************************************************************************)
 (* intersection(dicts.., level) on objects                                 *)
 (***************************************************************************)
 RECURSIVE HInter(_, _, _), HInterLoop(_, _, _, _, _), HInterKeys(_, _, _, _, _)
 HInter(h, cs, lv) ==
-  IF Len(cs) = 0 THEN NewEmpty(h)
+  IF Len(cs) = 0 THEN EmptyFor(h, "interempty")
   ELSE LET cp == DeepCopy(h, cs[1]) IN HInterLoop(cp.h, cp.c, cs, 2, lv)
 HInterLoop(h, res, cs, i, lv) ==
   IF i > Len(cs) THEN [h |-> h, c |-> res]
   ELSE IF lv = 0
     THEN IF Eq(Val(h, cs[i]), Val(h, res)) /\ Keys(h[res.o]) # {}
            THEN HInterLoop(h, res, cs, i + 1, lv)
-         ELSE NewEmpty(h)
+         ELSE EmptyFor(h, "interempty")
   ELSE LET h2 == HInterKeys(h, res.o, cs[i].o, Keys(h[res.o]), lv) IN
          IF Keys(h2[res.o]) = {} THEN [h |-> h2, c |-> res]         \* res was calculated empty
          ELSE HInterLoop(h2, res, cs, i + 1, lv)
@@ -159,6 +192,32 @@ HInterKeys(h, ro, dob, ks, lv) ==
             \* res[key] = intersection(res[key], d[key], level-1): a new dictionary
             ELSE LET sub == HInter(h, <<rv, dv>>, lv - 1)
                  IN HInterKeys([sub.h EXCEPT ![ro] = With(@, k, sub.c)], ro, dob, rest, lv)
+
+(***************************************************************************)
+(* difference(d1, d2, level) on objects (round 8): d1 itself where the     *)
+(* recursion stops, a new empty dictionary for equal arguments, otherwise  *)
+(* a new dictionary holding d1's values / the non-empty sub-differences    *)
+(***************************************************************************)
+RECURSIVE HDiff(_, _, _, _), HDiffKeys(_, _, _, _, _, _)
+HDiff(h, c1, c2, lv) ==
+  IF ~IsR(c1) \/ ~IsR(c2) THEN [h |-> h, c |-> c1]
+  ELSE IF Eq(Val(h, c1), Val(h, c2)) THEN EmptyFor(h, "diffempty")
+  ELSE IF lv = 0 THEN [h |-> h, c |-> c1]
+  ELSE LET n == NewEmpty(h) IN [h |-> HDiffKeys(n.h, n.c.o, c1.o, c2.o, Keys(h[c1.o]), lv), c |-> n.c]
+HDiffKeys(h, ro, o1, o2, ks, lv) ==
+  IF ks = {} THEN h
+  ELSE LET k == CHOOSE j \in ks : TRUE
+           rest == ks \ {k}
+           v1 == h[o1].m[k]
+       IN IF k \notin Keys(h[o2]) THEN HDiffKeys([h EXCEPT ![ro] = With(@, k, v1)], ro, o1, o2, rest, lv)
+          ELSE LET v2 == h[o2].m[k] IN
+            IF Eq(Val(h, v1), Val(h, v2)) THEN HDiffKeys(h, ro, o1, o2, rest, lv)
+            ELSE IF lv = 1 \/ ~IsR(v1) \/ ~IsR(v2)
+              THEN HDiffKeys([h EXCEPT ![ro] = With(@, k, v1)], ro, o1, o2, rest, lv)
+            ELSE LET sub == HDiff(h, v1, v2, lv - 1) IN
+              IF Keys(sub.h[sub.c.o]) # {}
+                THEN HDiffKeys([sub.h EXCEPT ![ro] = With(@, k, sub.c)], ro, o1, o2, rest, lv)
+              ELSE HDiffKeys(sub.h, ro, o1, o2, rest, lv)
 
 (***************************************************************************)
 (* update_recursively(d, other) on objects (d = object dob is changed)     *)
@@ -215,6 +274,9 @@ CUpdVar(i, j) == C("updvar", -1, "-", <<i, j>>, Empty, <<>>, "-")  \* other: the
 CStr(i, p, vk, t) == C("updstr", -1, "-", <<i>>, t, p, vk)         \* other: the dotted string of p (+ value t)
 CNested(i, key, t) == C("nested", -1, key, <<i>>, t, <<>>, "-")
 CTouch(i) == C("touch", -1, "-", <<i>>, Empty, <<>>, "-")
+CDiffR(i, j, lv) == C("diffr", lv, "-", <<i, j>>, Empty, <<>>, "-")   \* the result is kept by the caller
+CStrD(p, vk, t) == C("strd", -1, "-", <<>>, t, p, vk)                  \* r = str_to_dict(string of p[, value t])
+ResOps == {"inter", "diffr", "strd"}                                   \* calls whose result becomes a variable
 KeyStr(k) == Leaf(k, 50)                  \* a key used as the (string) value
 RECURSIVE NestP(_, _)
 NestP(p, v) == IF p = <<>> THEN v ELSE Dict([j \in {Head(p)} |-> NestP(Tail(p), v)])
@@ -295,6 +357,24 @@ ReadProgs(ilv) == {<<r, m, r>> : r \in {CInter(<<1, 2>>, lv) : lv \in ilv} \cup 
 AnyProgs == {<<a, b, c>> : a \in MutCalls(1), b \in MutCalls(1) \cup MutCalls(2), c \in MutCalls(2)}
 HistBehs(vals, progs) == {Beh(Env(<<>>, <<x, y>>), p) : x \in vals, y \in vals, p \in progs}
 
+\* ---- results (round 8): a result is the caller's object; it is written into / updated between calls
+RVals == {Empty, D1(KA, L0), D2(D1(KA, L1), L1), D2(D2(L1, L0), L1)}
+RValsQ == RVals \ {D1(KA, L0)}
+Pairs12 == {<<1, 1>>, <<1, 2>>, <<2, 1>>, <<2, 2>>}
+\* calls whose result the caller keeps
+ResCalls(lvs) == {CDiffR(q[1], q[2], lv) : q \in Pairs12, lv \in lvs}
+                 \cup {CInter(q, lv) : q \in Pairs12, lv \in lvs}
+                 \cup {CInter(<<1, 2>>, 0), CDiffR(1, 2, 0)}          \* level 0: d1 itself / an empty result for unequal arguments
+                 \cup {CInter(<<>>, -1), CInter(<<1>>, -1), CStrD(<<>>, "novalue", Empty), CStrD(<<KA, KB>>, "novalue", Empty),
+                       CStrD(<<KA>>, "value", D1(KB, L1))}
+\* what the caller does to the result held in variable n: writes into every dictionary of it / updates it
+ResMods(n) == {CTouch(n), CUpd(n, D1(KA, D1(KB, L1))), CUpd(n, D1(KB, L0))}
+ResProgs(lvs, lvs2) == {<<r1, m, r2>> : r1 \in ResCalls(lvs), m \in ResMods(3), r2 \in ResCalls(lvs2)}
+\* the reconstruction of d1 from difference and intersection, twice: the caller completes one part with the
+\* other (either way round); the second reconstruction may not see anything of the first
+Recon(q, n, way) == <<CDiffR(q[1], q[2], -1), CInter(q, -1), IF way = 1 THEN CUpdVar(n, n + 1) ELSE CUpdVar(n + 1, n)>>
+ReconProgs == {Recon(q1, 3, w1) \o Recon(q2, 5, w2) : q1 \in Pairs12, q2 \in Pairs12, w1 \in {1, 2}, w2 \in {1, 2}}
+
 \* The universes by kind (a parameter, so that TLC builds only the ones a configuration names)
 BehsOf(kd) ==
   CASE kd = "sharing-q"  -> SharingBehs(SharedValsQ, SharingRoots(MultiQ, SingleQ, V2), {-1, 2}, {-1})
@@ -310,30 +390,35 @@ BehsOf(kd) ==
     [] kd = "read-q"     -> HistBehs(HValsQ, ReadProgs({-1}))
     [] kd = "read-t"     -> HistBehs(HVals, ReadProgs({-1, 1, 2}))
     [] kd = "any"        -> HistBehs(HVals, AnyProgs)
+    [] kd = "results-q"  -> HistBehs(RValsQ, ResProgs({-1}, {-1}) \cup ReconProgs)
+    [] kd = "results-t"  -> HistBehs(RVals, ResProgs({-1, 0, 1}, {-1, 0}) \cup ReconProgs)
+    [] kd = "guard-results" -> HistBehs({Empty, D1(KA, L0)}, ResProgs({-1}, {-1}))
     \* the smallest universes that tell the wrong variants from the right algorithm
     [] kd = "guard-sharing" -> SharingBehs({D2(L0, L1)}, SharingRoots({D2(S1, S1)}, {}, V2), {-1}, {})
     [] kd = "guard-hist"    -> HistBehs({Empty, D1(KA, L0)}, HistProgs)
 KindsQuickSharing == {"sharing-q", "same-q", "updvar-q"}
 KindsQuickHistory == {"hist-q", "read-q"}
-KindsQuick == KindsQuickSharing \cup KindsQuickHistory
+KindsQuickResults == {"results-q"}
+KindsThoroughResults == {"results-t"}
+KindsGuardResults == {"guard-results"}
+KindsQuick == KindsQuickSharing \cup KindsQuickHistory \cup KindsQuickResults
 KindsThoroughSharing == {"sharing-t", "same-t", "updvar-t", "triple", "sharing2"}
 KindsThoroughHistory == {"hist-t", "read-t"}
-KindsThorough == KindsThoroughSharing \cup KindsThoroughHistory
+KindsThorough == KindsThoroughSharing \cup KindsThoroughHistory \cup KindsThoroughResults
 KindsAny == {"any"}
 KindsGuardSharing == {"guard-sharing"}
 KindsGuardHist == {"guard-hist"}
 
-VARIABLES beh,          \* the behaviour chosen: environment description and program
-          heap, env,
-          pcn,          \* number of the next call
-          obs,          \* what the caller sees after every call: values of all variables, returned value
-          cache         \* Variant "strcache": dictionaries kept by str_to_dict, as <<path, object>>
 vars == <<beh, heap, env, pcn, obs, cache>>
 prog == beh.prog
 
 Init == /\ \E kd \in Kinds : beh \in BehsOf(kd)
-        /\ LET b == BuildEnv(beh.env) IN heap = b.h /\ env = b.env
-        /\ pcn = 1 /\ obs = <<>> /\ cache = {}
+        /\ LET b == BuildEnv(beh.env) IN
+             /\ env = b.env
+             \* a wrong variant with a module-level empty dictionary: the object exists before the first call
+             /\ heap = IF Variant \in KeptVariants THEN Append(b.h, Empty) ELSE b.h
+             /\ cache = IF Variant \in KeptVariants THEN {<<KeptPath, Len(b.h) + 1>>} ELSE {}
+        /\ pcn = 1 /\ obs = <<>>
 
 Cur == prog[pcn]
 Arg(j) == env[Cur.xs[j]]
@@ -372,11 +457,28 @@ DoNested == /\ Running("nested")
                    h2 == HNested(t.h, Cur.key, Arg(1).o, t.c.o)
                IN heap' = h2 /\ Observe(h2, env, Empty)
             /\ UNCHANGED <<env, cache>>
+\* r = difference(copy.deepcopy(x), copy.deepcopy(y), level), kept by the caller
+DoDiffR == /\ Running("diffr")
+           /\ LET a == DeepCopy(heap, Arg(1))
+                  b == DeepCopy(a.h, Arg(2))
+                  r == HDiff(b.h, a.c, b.c, Cur.lv)
+              IN /\ heap' = r.h /\ env' = Append(env, r.c)
+                 /\ Observe(r.h, Append(env, r.c), Val(r.h, r.c))
+           /\ cache' = cache
+\* r = str_to_dict(string[, value]), kept by the caller
+DoStrD == /\ Running("strd")
+          /\ LET c == Cur
+                 v == IF c.vk = "value" THEN Alloc(heap, c.t, <<>>) ELSE [h |-> heap, c |-> KeyStr(Last(c.p))]
+                 r == IF c.p = <<>> THEN EmptyFor(heap, "strdempty")
+                      ELSE AllocChain(v.h, IF c.vk = "value" THEN c.p ELSE Front(c.p), v.c)
+             IN /\ heap' = r.h /\ env' = Append(env, r.c)
+                /\ Observe(r.h, Append(env, r.c), Val(r.h, r.c))
+          /\ cache' = cache
 DoTouch == /\ Running("touch")
            /\ LET h2 == Touch(heap, Arg(1)) IN heap' = h2 /\ Observe(h2, env, Empty)
            /\ UNCHANGED <<env, cache>>
 
-Next == DoInter \/ DoDiff \/ DoUpdRec \/ DoUpdStr \/ DoNested \/ DoTouch
+Next == DoInter \/ DoDiff \/ DoUpdRec \/ DoUpdStr \/ DoNested \/ DoTouch \/ DoDiffR \/ DoStrD
 Spec == Init /\ [][Next]_vars
 Terminal == pcn > Len(prog)
 
@@ -404,6 +506,20 @@ StepOK ==
                 /\ Reach(heap', env'[n]) \cap UNION {Reach(heap', env'[i]) : i \in all} = {}
          [] c.op = "diff" -> /\ same(all) /\ env' = env
                              /\ Eq(obs'[pcn].res, Diff(before[x], before[c.xs[2]], c.lv))
+         \* results kept by the caller: the value is the function of the argument values, whatever the caller did
+         \* to earlier results, and the result is no object the caller (or the library) already had
+         [] c.op = "diffr" ->
+              LET n == Len(env) + 1 IN
+                /\ Len(env') = n /\ same(all)
+                /\ Eq(after[n], Diff(before[x], before[c.xs[2]], c.lv))
+                /\ obs'[pcn].res = after[n]
+                /\ Reach(heap', env'[n]) \cap UNION {Reach(heap', env'[i]) : i \in all} = {}
+         [] c.op = "strd" ->
+              LET n == Len(env) + 1 IN
+                /\ Len(env') = n /\ same(all)
+                /\ Eq(after[n], IF c.p = <<>> THEN Empty ELSE StrDict(c))
+                /\ obs'[pcn].res = after[n]
+                /\ Reach(heap', env'[n]) \cap UNION {Reach(heap', env'[i]) : i \in all} = {}
          [] c.op = "updrec" -> env' = env /\ same(all \ {x}) /\ Eq(after[x], UpdRec(before[x], c.t))
          [] c.op = "updvar" -> env' = env /\ same(all \ {x}) /\ Eq(after[x], UpdRec(before[x], before[c.xs[2]]))
          [] c.op = "updstr" -> env' = env /\ same(all \ {x}) /\ Eq(after[x], UpdRec(before[x], StrDict(c)))
@@ -411,16 +527,20 @@ StepOK ==
          [] c.op = "touch"  -> env' = env /\ same(all \ {x}) /\ after[x] = Touched(before[x])
 StepsOK == [][StepOK]_vars
 \* the universes keep to where the documentation fixes the outcome: a dictionary updated in place is a
-\* tree sharing nothing with another variable; an update with a variable as other is the last step;
-\* only results of intersection are touched; update_nested gets a chain of dictionaries
+\* tree sharing nothing with another variable; after an update with a variable as other neither of the two
+\* dictionaries is written into; only results (of intersection, of difference on private copies, of
+\* str_to_dict) are touched; update_nested gets a chain of dictionaries
 MutatedIsPrivate ==
   pcn <= Len(prog) =>
     LET c == Cur  x == c.xs[1] IN
       /\ c.op \in Mutators =>
            /\ IsTree(heap, env[x])
            /\ \A i \in DOMAIN env \ {x} : Reach(heap, env[i]) \cap Reach(heap, env[x]) = {}
-      /\ c.op = "updvar" => pcn = Len(prog)
-      /\ c.op = "touch" => \E j \in 1..(pcn - 1) : prog[j].op = "inter" /\ x = Len(beh.env.roots) + Cardinality({i \in 1..j : prog[i].op = "inter"})
+      \* after update_recursively(d, other) with a variable as other neither of the two is written into again
+      /\ c.op = "updvar" => \A j \in (pcn + 1)..Len(prog) :
+                               prog[j].op \in Mutators \cup {"touch"} => prog[j].xs[1] \notin {x, c.xs[2]}
+      /\ c.op = "touch" => \E j \in 1..(pcn - 1) : prog[j].op \in ResOps /\ x = Len(beh.env.roots) + Cardinality({i \in 1..j : prog[i].op \in ResOps})
+      /\ c.op = "strd" => Len(c.p) >= (IF c.vk = "value" THEN 1 ELSE 2) \/ (c.p = <<>> /\ c.vk # "value")
       /\ c.op = "nested" => ChainOk(c.t, c.key)
       /\ c.op = "updstr" => Len(c.p) >= (IF c.vk = "value" THEN 1 ELSE 2)
 
